@@ -277,6 +277,23 @@ Definition m_step_gen (setf : setter) (st : mstate) (o : op) : res (mstate * nat
         | None => Ok (st, R_INVALID)
         | Some n => Ok (mkSt (m_heap st) (m_table st) (m_cols st) (m_ncols st) (m_rows st) (m_dets st) (m_handles st ++ [n]), R_OK)
         end)
+  | AddHeaders n =>             (* t.resizeColumnsAtLeast(len(items)); the header row holds no owner of the op language *)
+      Ok (resize_columns_at_least st n, R_OK)
+  | Touch ow =>                 (* no modelled function writes pi.properties except SetProperty *)
+      bind (head_of st ow) (fun hp =>
+        match hp with
+        | None => Ok (st, R_INVALID)
+        | Some _ => Ok (st, R_OK)
+        end)
+  | NewCellOf ow =>             (* NewCell(c): Cell{raw: c}; the new cell's own propertyImpl is the zero value *)
+      if is_cell_owner ow then
+        bind (head_of st ow) (fun hp =>
+          match hp with
+          | None => Ok (st, R_INVALID)
+          | Some _ =>
+              Ok (mkSt (m_heap st) (m_table st) (m_cols st) (m_ncols st) (m_rows st) (m_dets st ++ [None]) (m_handles st), R_OK)
+          end)
+      else Ok (st, R_INVALID)
   end.
 
 Definition m_step : mstate -> op -> res (mstate * nat) := m_step_gen hset_property.
